@@ -1,0 +1,35 @@
+// Verification hooks: compiled only with `--cfg tikv_raft_rs_verif`.
+
+//! Seams and re-exports used by the model-checking harness in /verif.
+//!
+//! Nothing in this module is compiled unless `--cfg tikv_raft_rs_verif` is set.
+
+use std::cell::Cell;
+
+pub use crate::confchange::restore;
+pub use crate::quorum::{AckIndexer, AckedIndexer, Index, VoteResult};
+pub use crate::raft::VerifRaftView;
+pub use crate::raw_node::VerifRawNodeView;
+pub use crate::read_only::{ReadIndexStatus, ReadOnly};
+pub use crate::tracker::Configuration;
+
+thread_local! {
+    static SALT: Cell<u64> = const { Cell::new(0) };
+}
+
+/// Sets the per-thread salt of the deterministic election timeout.
+pub fn set_election_salt(salt: u64) {
+    SALT.with(|s| s.set(salt));
+}
+
+/// Returns the per-thread salt of the deterministic election timeout.
+pub fn election_salt() -> u64 {
+    SALT.with(|s| s.get())
+}
+
+/// Deterministic replacement of the randomized election timeout: a pure function of
+/// `(id, term, salt)` in `[min, max)`.
+pub fn election_timeout(id: u64, term: u64, min: usize, max: usize) -> usize {
+    let range = (max - min) as u64;
+    min + ((id + term + election_salt()) % range) as usize
+}
